@@ -168,8 +168,53 @@ def gen_random(args):
     return out
 
 
+def _iter_replay(args):
+    emd = core.import_emd()
+    out = []
+    for i, b in args:
+        cv = np.array(b['cv'], dtype=int)
+        sel = np.array(b['sel'], dtype=bool)
+        sv = emd.cycles.get_subset_vector(sel)
+        chv = emd.cycles.get_chain_vector(sv)
+
+        def loop():
+            it = emd.cycles.IterateCycles(iter_through=b['through'], mode='cycle', cycle_vect=cv, subset_vect=sv, chain_vect=chv)
+            return [[int(k), sorted(int(v) for v in inds)] for k, inds in it]
+        got = core.guarded(loop)
+        want = [[int(o[0]), [int(v) for v in o[1]]] for o in b['out']] if b['pc'] == 'done' else 'raise:ValueError'
+        out.append((i, None if got == want else 'IterateCycles(%s) over cv=%s sel=%s yields %s, specification %s' % (b['through'], b['cv'], b['sel'], got, want)))
+    return out
+
+
+def iterator_leg(ctx):
+    """Specification growth beyond C16 (the IterateCycles iterator protocol, spec/CycleIter.tla): model-checked, every
+    finished loop replayed through the real iterator; a disagreement is reported but is NOT a verdict on C16."""
+    from .sift_check import parse_behaviours
+    cfg = os.path.join(ctx.work, 'ci.cfg')
+    consts = {'KMaxI': ctx.pick(3, 4), 'LMaxI': 2}
+    invs = ['InOrder', 'Disjoint', 'Covers', 'ChainsAreRuns']
+    core.write_cfg(cfg, spec='Spec', invariants=invs, properties=['Terminates'], constants=consts)
+    core.require_ok(core.run_tlc(ctx, 'CycleIter', cfg, name='CycleIter iterator protocol'), 'CycleIter')
+    core.write_cfg(cfg, spec='Spec', invariants=['W_TwoChains'], constants=consts)
+    core.expect_violation(ctx, 'CycleIter', cfg, 'W_TwoChains', 'CycleIter W_TwoChains', workers=2)
+    core.write_cfg(cfg, spec='Spec', invariants=['Export'], constants=consts)
+    res = core.run_tlc(ctx, 'CycleIter', cfg, name='CycleIter export', workers=1)
+    core.require_ok(res, 'CycleIter export')
+    behs = parse_behaviours(res['out'])
+    idx = list(enumerate(behs))
+    nbad = 0
+    for part in core.pmap(_iter_replay, [idx[i::16] for i in range(16)]):
+        for i, diff in part:
+            if diff:
+                nbad += 1
+                if nbad <= 3:
+                    ctx.extra(diff)
+    ctx.leg('iterator (beyond C16, not a verdict)', invariants=invs + ['Terminates'], loops_replayed=len(behs), mismatches=nbad)
+
+
 def run():
     ctx = Ctx('C16')
+    iterator_leg(ctx)
     KFull, LMax, NMax, KMax = ctx.pick((4, 3, 7, 10), (5, 3, 8, 12))
     consts = {'KFull': KFull, 'LMax': LMax, 'NMax': NMax, 'KMax': KMax}
     invs = ['Total', 'RoundTrips', 'NoneExactly', 'ChainsAreMaximalRuns', 'Projections']
